@@ -1348,3 +1348,9 @@ package server
 //@   requires self != nil
 //@   at call ProcessLockResultCommandLocked assert C18.proxy.adopted: implies(ref(self.serverProtocol) != ref(old(self.serverProtocol)), calls(AddProxy) == 1)
 //@   modifies all
+
+// C16: a restart replays exactly one snapshot, the file called rewrite.aof: the unfinished output of a compaction
+// (rewrite.aof.tmp) and anything else that merely starts with that name is never taken for it
+//@ func (*Aof).FindAofFiles$1
+//@   ensures C16.find.snapshot-name: rewriteFile == old(rewriteFile) || rewriteFile == "rewrite.aof"
+//@   modifies all
